@@ -108,3 +108,23 @@ PROPS.update({
    components=dict(real=REAL_CORE + REAL_BEV + REAL_BUF, simulated=SIM_COMMON + SIM_NET, stubbed=[]), assumptions=ASSUME_R + ASSUME_S,
    expected_probes=["finalize", "free-inside-own-callback", "base-free-with-once-pending", "base-free-with-finalizer-pending", "free-inside-read-callback", "free-inside-event-callback"]),
 })
+REAL_DNS = ["evdns.c", "evutil.c (getaddrinfo helpers, sockaddr parsing)", "bufferevent_sock.c / bufferevent.c / buffer.c (the resolver's TCP connections)", "event.c", "evmap.c", "epoll.c / poll.c / select.c"]
+SIM_DNS = ["UDP and TCP sockets of the resolver, the network (latency, datagram drop / duplicate / reorder, stream segmentation) and the nameservers (scripted endpoints: answer, drop, delay, RCODE, TC, mutated replies, NODATA, TCP close at byte / reset) (vk/ simulated kernel, h/h_dns.cpp)",
+           "monotonic and wall clock (virtual)", "secure RNG (arc4random: transaction ids, 0x20 bits) from a PRNG stream of the run, optionally narrowed to a few distinct ids", "allocator (ledger)", "locks (simulator-owned)"]
+ASSUME_DNS = ASSUME_S + ["the reference reading of a reply (ref/dnswire.hpp, h/h_dns.cpp ref_read) is mine: strict on bounds, three-valued where RFC 1035 and common practice differ (several addresses in one RR, names of 256/257 octets, reserved label bits => either outcome)"]
+def h6(quick, thorough):
+    return lambda tier: [dict(name="h_dns", harness="h_dns", count=quick if tier == "quick" else thorough, tlimit=40 if tier == "quick" else 500)]
+PROPS.update({
+ "C33": dict(level="exploration", stages=h6(30000, 500000),
+   rule="1-3 scripted nameservers; A / AAAA / PTR (v4, v6) requests with and without DNS_CNAME_CALLBACK; per query the nameserver answers from a grammar (1-60 records, CNAME chains, other types only, NODATA with SOA, RCODE 0-15, TC) or sends a mutated copy of a valid reply (bit flip, truncation at any byte, wrong id, wrong question, QR clear, ANCOUNT lie, self-pointing / out-of-range / reserved-type compression pointers, RDLENGTH lie, extra CNAMEs, question removed, trailing bytes, wrong source address), over UDP and over TCP with arbitrary segmentation and close at any byte; every result callback is compared with an independent reading of the replies that were sent for that request; ASan and the allocator ledger watch for out-of-bounds access and leaks; non-trivial when a reply addressed to a request was read beyond its header for a comparison; distinct = distinct trace hashes among non-trivial runs",
+   components=dict(real=REAL_DNS, simulated=SIM_DNS, stubbed=[]), assumptions=ASSUME_DNS, expected_probes=["cname-reported", "query-over-tcp"]),
+ "C34": dict(level="exploration", stages=h6(30000, 500000),
+   rule="requests (resolve A/AAAA/PTR, getaddrinfo) against nameservers that drop, delay (around the timeout values), refuse, truncate (TCP fallback), answer twice, close or reset TCP, go down and come back; options timeout / attempts / max-inflight / max-timeouts changed mid-run; cancel, evdns_base_free (fail_requests 0/1), new requests and option changes also from inside result callbacks; nameservers cleared and re-added; transaction ids optionally drawn from 4 or 16 values; counters per request: callbacks == 1 at the end (0 allowed only after evdns_base_free(base, 0)), never 2; DNS_ERR_CANCEL only after cancel, DNS_ERR_SHUTDOWN only after free; ids of requests in flight pairwise different on the wire; no callback after event_base_free; liveness: once faults stop and every nameserver answers, every open request gets its outcome within 6 virtual hours; non-trivial when some request finished by something other than a first-try answer; distinct = distinct trace hashes among non-trivial runs",
+   components=dict(real=REAL_DNS, simulated=SIM_DNS, stubbed=[]), assumptions=ASSUME_DNS, expected_probes=["request-timeout", "cancelled", "shutdown-result", "query-over-tcp", "cancel-inside-callback", "base-free-inside-callback", "getaddrinfo-cancelled"]),
+ "C36": dict(level="exploration", stages=h6(30000, 500000),
+   rule="names from a grammar (plain, single label, mixed case, trailing dot, 63- and 64-octet labels, 253/254/255/300-character names, empty labels, leading dot, non-ASCII and escape characters, lone dot), search lists of 0-3 domains with ndots 0-3, randomize-case on/off, edns-udp-size 512..65535, UDP and TCP; every query the scripted nameservers receive is decoded by the reference decoder (well-formed, one question, QR=0, opcode 0, RD, OPT iff configured with the configured size, no empty labels, <= 255 octets) and matched against the requests made: name equal (case-insensitively iff randomize-case), type, class, search candidates in documented order without skipping; a name that cannot be encoded must be refused, never transmitted; non-trivial when a query was decoded; distinct = distinct trace hashes among non-trivial runs",
+   components=dict(real=REAL_DNS, simulated=SIM_DNS, stubbed=[]), assumptions=ASSUME_DNS, expected_probes=["search-list-step", "unencodable-name", "query-over-tcp"]),
+ "C38": dict(level="exploration", stages=h6(30000, 500000),
+   rule="evdns_getaddrinfo with node in {4 shared hostnames (cache and hosts hits), numeric IPv4, numeric IPv6, NULL, hosts-file names}, service in {none, 0, 80, 443, 65535}, family hint unspec/inet/inet6, socktype any/stream/dgram, AI_CANONNAME / AI_PASSIVE / AI_NUMERICHOST, a hosts file served from memory, cache on/off, record TTLs 0..86400 s and virtual-time advances around them, nameserver faults as in C34; every addrinfo list is checked entry by entry: family allowed by the hint, address present in the hosts file or in a reply addressed to one of the two sub-questions (or in a cache entry whose TTL has not passed), port, ai_family, socktype and protocol; numeric / NULL / hosts nodes must not go to the network and hosts entries must be returned completely; non-trivial when a result list was compared; distinct = distinct trace hashes among non-trivial runs",
+   components=dict(real=REAL_DNS, simulated=SIM_DNS + ["hosts file (memfd, read through the real open/read)"], stubbed=[]), assumptions=ASSUME_DNS, expected_probes=["hosts-hit", "numeric-or-null-node"]),
+})
